@@ -84,7 +84,7 @@ use blots_core::expressions::evaluate_ast;
 use blots_core::functions::BuiltInFunction as B;
 
 /// numbers: each dot operator returns exactly the IEEE relation (no NaN), u* agree
-kproof!(noerr_nocall, 3, fn c12_q_dot_ops_numbers() {
+kproof!(noerr_nocall, 9, fn c12_q_dot_ops_numbers() {
     let a: f64 = kani::any();
     let b: f64 = kani::any();
     kani::assume(!a.is_nan() && !b.is_nan());
@@ -119,7 +119,7 @@ kproof!(noerr, 3, fn c12_q_unchecked_builtins_numbers() {
 });
 /// unordered or different types: .== false / .!= true (null .== null true), the four orderings
 /// fail, the four unchecked built-ins return false
-kproof!(cut_nocall, 3, fn c12_q_dot_ops_unordered_types_fail() {
+kproof!(cut_nocall, 9, fn c12_q_dot_ops_unordered_types_fail() {
     let a: f64 = kani::any();
     let b: bool = kani::any();
     kani::cover!(true, "reach-call");
@@ -138,7 +138,7 @@ kproof!(cut_nocall, 3, fn c12_q_dot_ops_unordered_types_fail() {
     }
     std::mem::forget(heap);
 });
-kproof!(noerr_nocall, 3, fn c12_q_dot_eq_mixed_types() {
+kproof!(noerr_nocall, 9, fn c12_q_dot_eq_mixed_types() {
     let a: f64 = kani::any();
     let b: bool = kani::any();
     let heap = arena::heap();
@@ -159,7 +159,7 @@ kproof!(noerr_nocall, 3, fn c12_q_dot_eq_mixed_types() {
     kani::cover!(true, "reach-end");
     std::mem::forget(heap);
 });
-kproof!(noerr, 3, fn c12_t_unchecked_builtins_unordered_false() {
+kproof!(noerr, 9, fn c12_t_unchecked_builtins_unordered_false() {
     let a: f64 = kani::any();
     let b: bool = kani::any();
     let heap = arena::heap();
@@ -239,7 +239,7 @@ kproof!(noerr, 5, fn c12_t_list1_transitivity() {
     std::mem::forget(heap);
 });
 /// nested list: [[a]] vs [[b]] and the dot operators through the evaluator on list operands
-kproof!(noerr_nocall, 5, fn c12_t_dot_ops_lists_through_evaluator() {
+kproof!(noerr_nocall, 9, fn c12_t_dot_ops_lists_through_evaluator() {
     let (a0, a1, b0, b1): (f64, f64, f64, f64) = (kani::any(), kani::any(), kani::any(), kani::any());
     kani::assume(!a0.is_nan() && !a1.is_nan() && !b0.is_nan() && !b1.is_nan());
     let heap = arena::heap();
